@@ -81,6 +81,14 @@ structure Param where
   default : Option Expr
   deriving Inhabited
 
+/-- value of one of the `@meta(...)` tags that `_log_action_or_intents` looks at -/
+inductive MetaVal where
+  | bool (b : Bool)
+  /-- a string value, already wrapped as the expression `"<value>"` that Python evaluates -/
+  | str (e : Expr)
+  | other
+  deriving Inhabited
+
 structure FlowCfg where
   id : String
   elements : Array Prim
@@ -90,7 +98,7 @@ structure FlowCfg where
   loopId : Option String               -- `FlowConfig.loop_id`
   loopPriority : Int
   /-- which of the `@meta` tags user_intent / bot_intent / user_action / bot_action are present (intent logging) -/
-  metaTags : List String
+  metaTags : List (String × MetaVal)
   deriving Inhabited
 
 structure Prog where
